@@ -128,7 +128,13 @@ Definition C01_structure_full_statement : Prop :=
    the whole-template statement's clauses *)
 Theorem C01_oracle_meaning : forall o o' : bytes,
   c01_pair_verdict o o' = None <->
-  (skel o = skel o' /\ no_comment_tokens o = true /\ no_comment_tokens o' = true /\
-   r_final (html_tokenize SData o) = SData /\ r_final (html_tokenize SData o') = SData).
+  (skel o = skel o' /\ no_comment_tokens o = true /\ no_comment_tokens o' = true).
 Proof. exact pair_verdict_spec. Qed.
 Print Assumptions C01_oracle_meaning.
+
+(* "leaves the tokenizer in the same state as the author's own markup": the final tokenizer state is
+   part of the skeleton *)
+Theorem C01_oracle_same_final_state : forall o o' : bytes,
+  same_structure o o' = true -> r_final (html_tokenize SData o) = r_final (html_tokenize SData o').
+Proof. exact same_structure_same_final. Qed.
+Print Assumptions C01_oracle_same_final_state.
